@@ -157,7 +157,13 @@ def run(ctx):
                 exp = expected_groups(all_groups, ids, cls_of, set(cls_of) - under if False else None, got_files, under)
                 not_allowed = {p for p in not_allowed if p in exp["must_be_present"]}
             if not_allowed:
-                if not_allowed <= sib_links:
+                # K5 class: the other links (hard links, or -S symlinks: same file id) of the failing representative are
+                # dropped with it; with the default filter their class may then fall below the threshold as a consequence
+                k5_rest = not_allowed - sib_links
+                if not mode and sib_links:
+                    exp2 = expected_groups(all_groups, ids, cls_of, None, got_files, under | sib_links)
+                    k5_rest = {p for p in k5_rest if p in exp2["must_be_present"]}
+                if sib_links and (not_allowed & sib_links or not mode) and not k5_rest:
                     sig = {"kind": "hardlink_siblings_dropped"}
                 else:
                     sig = {"kind": "other_files_dropped", "call": call}
